@@ -93,6 +93,8 @@ func WriteNdJson(env *dsl.Environment, options packaging.CppCodegenOptions) erro
 		case *dsl.SimpleType:
 			self.Visit(t.ResolvedDefinition)
 		case *dsl.GeneralizedType:
+			// unions nested inside this one first: the specialization for the outer variant uses theirs
+			self.VisitChildren(node)
 			if t.Cases.IsUnion() {
 				// Convert the union cases to their u types so we don't generate
 				// duplicate `adl_serializer` specializations for the same type.
@@ -107,6 +109,7 @@ func WriteNdJson(env *dsl.Environment, options packaging.CppCodegenOptions) erro
 					writeUnionConverters(w, scalarType)
 				}
 			}
+			return
 		}
 
 		self.VisitChildren(node)
